@@ -48,7 +48,9 @@ fn case_id(line: &str) -> Value {
     serde_json::from_str::<Value>(line).map(|v| v["id"].clone()).unwrap_or(Value::Null)
 }
 
-pub fn run(inp: &str, out: &str, jobs: usize, timeout_s: u64) -> i32 {
+// max_hangs: once that many cases have hung, the remaining cases are not started (outcome "skipped", why "too many hangs"):
+// the run has already shown non-termination, and every further hang would cost a full timeout
+pub fn run(inp: &str, out: &str, jobs: usize, timeout_s: u64, max_hangs: usize) -> i32 {
     let text = match std::fs::read_to_string(inp) {
         Ok(t) => t,
         Err(e) => {
@@ -59,11 +61,13 @@ pub fn run(inp: &str, out: &str, jobs: usize, timeout_s: u64) -> i32 {
     let cases: Arc<Vec<String>> = Arc::new(text.lines().filter(|l| !l.trim().is_empty()).map(|l| l.to_string()).collect());
     let n = cases.len();
     let next = Arc::new(AtomicUsize::new(0));
+    let hangs = Arc::new(AtomicUsize::new(0));
     let results: Arc<Mutex<Vec<Option<String>>>> = Arc::new(Mutex::new(vec![None; n]));
     let mut handles = Vec::new();
     for _ in 0..jobs.max(1).min(n.max(1)) {
         let cases = cases.clone();
         let next = next.clone();
+        let hangs = hangs.clone();
         let results = results.clone();
         handles.push(std::thread::spawn(move || {
             let mut w = spawn();
@@ -74,6 +78,10 @@ pub fn run(inp: &str, out: &str, jobs: usize, timeout_s: u64) -> i32 {
                     break;
                 }
                 let line = &cases[i];
+                if hangs.load(Ordering::SeqCst) >= max_hangs {
+                    local.push((i, json!({"id": case_id(line), "outcome": "skipped", "why": "too many hangs"}).to_string()));
+                    continue;
+                }
                 let sent = writeln!(w.stdin, "{}", line).and_then(|_| w.stdin.flush());
                 let obs: String = if sent.is_err() {
                     let _ = w.child.kill();
@@ -84,6 +92,7 @@ pub fn run(inp: &str, out: &str, jobs: usize, timeout_s: u64) -> i32 {
                     match w.rx.recv_timeout(Duration::from_secs(timeout_s)) {
                         Ok(o) => o,
                         Err(RecvTimeoutError::Timeout) => {
+                            hangs.fetch_add(1, Ordering::SeqCst);
                             let _ = w.child.kill();
                             let _ = w.child.wait();
                             w = spawn();
